@@ -697,7 +697,10 @@ Qed.
 Definition arr (s : pstate) : Z := k_array (ps_stack s).
 
 Lemma user_malloc_arr : forall k b e, k_array (snd (user_malloc k b e)) = k_array k.
-Proof. intros k b e; unfold user_malloc; destruct (stack_full k b); [reflexivity|]; destruct (e =? HEAD); reflexivity. Qed.
+Proof.
+  intros k b e; unfold user_malloc; destruct (stack_full k b); [reflexivity|]; destruct (e =? HEAD); [reflexivity|].
+  cbv zeta. destruct (stack_full k (b + tail_extra k b)); reflexivity.
+Qed.
 
 Lemma user_malloc_list_arr : forall sizes k ok, k_array (fst (user_malloc_list k sizes ok)) = k_array k.
 Proof.
@@ -1490,3 +1493,159 @@ Proof.
   split; [exact cand2_fresh|]. split; [exact cand2_nonempty|]. split; [exact old2_on_pattern|].
   intros j H. destruct j as [|[|j]]; [vm_compute; split; [reflexivity|discriminate]|vm_compute; split; [reflexivity|discriminate]|lia].
 Qed.
+
+(* ====================================================================== part 7: the user stack after fix 'tail blocks are
+   aligned by the allocator' (?user_malloc puts a TAIL block on an 8-byte boundary inside its critical section) *)
+Ltac lia8 := Z.div_mod_to_equations; lia.
+
+Lemma tail_extra_bounds : forall k b, 0 <= tail_extra k b < 8.
+Proof. intros. unfold tail_extra. lia8. Qed.
+
+(* a granted TAIL request takes  bytes + extra,  0 <= extra < 8, tested against the room left, and starts on a boundary *)
+Lemma user_malloc_tail_granted : forall k b off k',
+  user_malloc k b TAIL = (Some off, k') ->
+  let extra := tail_extra k b in
+  0 <= extra < 8 /\ stack_full k b = false /\ stack_full k (b + extra) = false /\ off mod 8 = 0 /\
+  off = k_top2 k - (b + extra) /\
+  k' = mkStack (k_size k) (k_used k + (b + extra)) (k_top1 k) (k_top2 k - (b + extra)) (k_array k).
+Proof.
+  intros k b off k'. unfold user_malloc. destruct (stack_full k b); [discriminate|].
+  change (TAIL =? HEAD) with false. cbv iota zeta.
+  destruct (stack_full k (b + tail_extra k b)); [discriminate|].
+  intros H; inversion H; subst. split; [apply tail_extra_bounds|].
+  repeat split; try reflexivity. unfold tail_extra. lia8.
+Qed.
+
+Lemma user_malloc_tail_aligned : forall k b off k', user_malloc k b TAIL = (Some off, k') -> off mod 8 = 0.
+Proof. intros k b off k' H. apply user_malloc_tail_granted in H. cbv zeta in H. tauto. Qed.
+
+Lemma user_malloc_head_granted : forall k b off k',
+  user_malloc k b HEAD = (Some off, k') ->
+  stack_full k b = false /\ off = k_top1 k /\
+  k' = mkStack (k_size k) (k_used k + b) (k_top1 k + b) (k_top2 k) (k_array k).
+Proof.
+  intros k b off k'. unfold user_malloc. destruct (stack_full k b); [discriminate|].
+  change (HEAD =? HEAD) with true. cbv iota. intros H; inversion H; subst. auto.
+Qed.
+
+Lemma user_malloc_refused_unchanged : forall k b e k', user_malloc k b e = (None, k') -> k' = k.
+Proof.
+  intros k b e k'. unfold user_malloc. destruct (stack_full k b); [intros H; inversion H; reflexivity|].
+  destruct (e =? HEAD); [discriminate|]. cbv zeta.
+  destruct (stack_full k (b + tail_extra k b)); [intros H; inversion H; reflexivity|discriminate].
+Qed.
+
+(* p?gstrf_WorkInit without its alignment fix-up ... *)
+Definition work_init_one_nofix (s : pstate) (a : fargs) : wres :=
+  let '(isize, dsize) := work_sizes a in
+  if ps_which s =? SYSTEM then WOk s
+  else
+    let '(p, k1) := user_malloc (ps_stack s) isize TAIL in
+    match p with
+    | None => WFail (set_stack s k1) (isize + fa_n a)
+    | Some _ =>
+        let '(q, k2) := user_malloc k1 dsize TAIL in
+        match q with
+        | None => WFail (set_stack s k2) (isize + dsize + fa_n a)
+        | Some _ => WOk (set_stack s k2)
+        end
+    end.
+
+(* ... is what p?gstrf_WorkInit does: the fix-up (second critical section top2 -= extra; used += extra) is dead code *)
+Lemma work_init_one_no_fixup : forall s a, work_init_one s a = work_init_one_nofix s a.
+Proof.
+  intros s a. unfold work_init_one, work_init_one_nofix. destruct (work_sizes a) as [isz dsz].
+  destruct (ps_which s =? SYSTEM); [reflexivity|].
+  destruct (user_malloc (ps_stack s) isz TAIL) as [p k1]. destruct p as [o|]; [|reflexivity].
+  destruct (user_malloc k1 dsz TAIL) as [q k2] eqn:E. destruct q as [off|]; [|reflexivity].
+  apply user_malloc_tail_aligned in E. rewrite E. reflexivity.
+Qed.
+
+(* the arithmetic invariant of the two-ended stack *)
+Definition kinv (k : ustack) : Prop :=
+  0 <= k_top1 k /\ k_top1 k <= k_top2 k /\ k_top2 k <= k_size k /\ k_used k = k_top1 k + (k_size k - k_top2 k).
+
+Lemma user_malloc_kinv : forall k b e, 0 <= b -> kinv k -> kinv (snd (user_malloc k b e)).
+Proof.
+  intros k b e Hb (H1 & H12 & H2 & Hu). unfold user_malloc. destruct (stack_full k b) eqn:F; [simpl; unfold kinv; auto|].
+  unfold stack_full in F. apply Z.leb_gt in F.
+  destruct (e =? HEAD); [unfold kinv; simpl; lia|]. cbv zeta.
+  pose proof (tail_extra_bounds k b) as Hx.
+  destruct (stack_full k (b + tail_extra k b)) eqn:F2; [simpl; unfold kinv; auto|].
+  unfold stack_full in F2. apply Z.leb_gt in F2. unfold kinv; simpl. lia.
+Qed.
+
+(* the work arrays of a thread: the HEAD part (top1: L, U and the integer arrays) is never touched, top2 never drops below
+   top1 -- the shift of a misaligned dwork used to be done without testing the room left *)
+Lemma work_init_one_kinv : forall s a,
+  0 <= fst (work_sizes a) -> 0 <= snd (work_sizes a) -> kinv (ps_stack s) ->
+  match work_init_one s a with
+  | WOk s' | WFail s' _ => kinv (ps_stack s') /\ k_top1 (ps_stack s') = k_top1 (ps_stack s) /\
+                           k_top2 (ps_stack s') <= k_top2 (ps_stack s) /\ k_size (ps_stack s') = k_size (ps_stack s)
+  end.
+Proof.
+  intros s a Hi Hd Hk. rewrite work_init_one_no_fixup. unfold work_init_one_nofix.
+  destruct (work_sizes a) as [isz dsz]. simpl in Hi, Hd.
+  destruct (ps_which s =? SYSTEM); [split; [exact Hk|lia]|].
+  pose proof (user_malloc_kinv (ps_stack s) isz TAIL Hi Hk) as K1.
+  destruct (user_malloc (ps_stack s) isz TAIL) as [p k1] eqn:E1. simpl in K1. destruct p as [o|].
+  - apply user_malloc_tail_granted in E1. cbv zeta in E1. destruct E1 as (X1 & _ & _ & _ & _ & E1).
+    pose proof (user_malloc_kinv k1 dsz TAIL Hd K1) as K2.
+    destruct (user_malloc k1 dsz TAIL) as [q k2] eqn:E2. simpl in K2. destruct q as [off|].
+    + apply user_malloc_tail_granted in E2. cbv zeta in E2. destruct E2 as (X2 & _ & _ & _ & _ & E2).
+      cbn [ps_stack set_stack]. split; [exact K2|]. subst k2 k1. cbn [k_top1 k_top2 k_size] in *. lia.
+    + apply user_malloc_refused_unchanged in E2. subst k2.
+      cbn [ps_stack set_stack]. split; [exact K1|]. subst k1. cbn [k_top1 k_top2 k_size]. lia.
+  - apply user_malloc_refused_unchanged in E1. subst k1. cbn [ps_stack set_stack]. split; [exact Hk|]. lia.
+Qed.
+
+Lemma work_init_all_kinv : forall p s a,
+  0 <= fst (work_sizes a) -> 0 <= snd (work_sizes a) -> kinv (ps_stack s) ->
+  match work_init_all p s a with
+  | WOk s' | WFail s' _ => kinv (ps_stack s') /\ k_top1 (ps_stack s') = k_top1 (ps_stack s) /\
+                           k_top2 (ps_stack s') <= k_top2 (ps_stack s) /\ k_size (ps_stack s') = k_size (ps_stack s)
+  end.
+Proof.
+  induction p as [|p IH]; intros s a Hi Hd Hk; simpl; [split; [exact Hk|lia]|].
+  pose proof (work_init_one_kinv s a Hi Hd Hk) as O.
+  destruct (work_init_one s a) as [s1|s1 v]; [|exact O].
+  destruct O as (K1 & T1 & T2 & SZ). specialize (IH s1 a Hi Hd K1).
+  destruct (work_init_all p s1 a); destruct IH as (K & A & B & C); (split; [exact K|]); lia.
+Qed.
+
+(* the probes ?user_malloc(0, HEAD) / ?user_malloc(0, TAIL) by which [observe] is read off the implementation
+   (harness pr_state): the HEAD probe never changes the stack; the TAIL probe is neutral and returns top2 exactly when
+   top2 is on an 8-byte boundary -- otherwise it now returns top2 - top2 mod 8 and TAKES the slack (or is refused when
+   the slack does not fit).  top2 is off a boundary only while no thread has taken its work arrays and lwork is not a
+   multiple of 8 (SetupSpace / MemInit set top2 = lwork; every TAIL block ends on a boundary). *)
+Lemma user_malloc_probe_neutral : forall k e,
+  stack_full k 0 = false -> (e = HEAD \/ (e = TAIL /\ k_top2 k mod 8 = 0)) ->
+  user_malloc k 0 e = (Some (if e =? HEAD then k_top1 k else k_top2 k), k).
+Proof.
+  intros [sz us t1 t2 ar] e F [->|[-> H]]; unfold user_malloc; rewrite F.
+  - change (HEAD =? HEAD) with true. cbv iota. cbn [k_size k_used k_top1 k_top2 k_array].
+    rewrite !Z.add_0_r. reflexivity.
+  - change (TAIL =? HEAD) with false. cbv iota zeta. unfold tail_extra. cbn [k_size k_used k_top1 k_top2 k_array] in *.
+    rewrite Z.sub_0_r, H. change (0 + 0) with 0. rewrite F. rewrite !Z.add_0_r, Z.sub_0_r. reflexivity.
+Qed.
+
+Lemma user_malloc_probe_tail_misaligned : forall k,
+  stack_full k 0 = false -> k_top2 k mod 8 <> 0 ->
+  let x := k_top2 k mod 8 in
+  user_malloc k 0 TAIL =
+    if stack_full k x then (None, k)
+    else (Some (k_top2 k - x), mkStack (k_size k) (k_used k + x) (k_top1 k) (k_top2 k - x) (k_array k)).
+Proof.
+  intros k F H x. unfold user_malloc. rewrite F. change (TAIL =? HEAD) with false. cbv iota zeta.
+  unfold tail_extra. rewrite Z.sub_0_r. fold x. rewrite Z.add_0_l. reflexivity.
+Qed.
+
+(* non-vacuity: a 1001-byte buffer (end misaligned), n = 4, panel 2, double: isize = 192, dsize = (8 + 72) * 8 = 640;
+   iwork takes 193 bytes (offset 808), dwork 640 (offset 168): both on 8-byte boundaries, no fix-up *)
+Example work_init_one_misaligned_end :
+  let a := mkFA 4 8 1 2 0 1 2 1 1000 0 1001 7 8 20 16 (-50) (-50) (-30) 0 16 77 in
+  let s := set_stack (set_which pstate0 USER) (mkStack 1001 100 100 1001 7) in
+  work_sizes a = (192, 640) /\
+  user_malloc (ps_stack s) 192 TAIL = (Some 808, mkStack 1001 293 100 808 7) /\
+  work_init_one s a = WOk (set_stack s (mkStack 1001 933 100 168 7)).
+Proof. vm_compute. auto. Qed.
